@@ -108,6 +108,21 @@ def _get_parm_type_real(name: str, default: Optional[ArgT] = None) -> Union[VarT
         return default
 
 
+def _write_verbatim(f: TextIO, kv: Keyvalues, indent: str) -> None:
+    """Write a keyvalues tree in the layout of :py:meth:`Keyvalues.serialise`, but without escaping text.
+
+    Materials are parsed with escapes disabled (so ``"files\\test\\tex"`` has no tab in it), therefore
+    an escaped backslash, quote or tab would be read back as two characters.
+    """
+    if kv.has_children():
+        f.write(f'{indent}"{kv.real_name}"\n{indent}\t{{\n')
+        for child in kv:
+            _write_verbatim(f, child, indent + '\t')
+        f.write(f'{indent}\t}}\n')
+    else:
+        f.write(f'{indent}"{kv.real_name}" "{kv.value}"\n')
+
+
 class Material(MutableMapping[str, str]):
     """Represents a material.
 
@@ -298,11 +313,11 @@ class Material(MutableMapping[str, str]):
         for param in self._params.values():
             f.write(f'\t{_quote_if_needed(param.name)} {_quote_if_needed(param.value)}\n')
         for block in self.blocks:
-            block.serialise(f, start_indent='\t')
+            _write_verbatim(f, block, '\t')
         if self.proxies:
             f.write('\n\tProxies\n\t\t{\n')
             for block in self.proxies:
-                block.serialise(f, start_indent='\t\t')
+                _write_verbatim(f, block, '\t\t')
             f.write('\t\t}\n')
         f.write('\t}\n')
 
